@@ -2,7 +2,7 @@
    Angles are in radians inside [true_sep]; [from_rad uout] converts to the requested unit. *)
 From Coq Require Import Reals Lra QArith Qreals List.
 From Coq Require PrimFloat.
-From EsVerif.C08 Require Import Gen Model Spec Proofs Code SrcLib Src SrcProofs SrcLibF SrcF FProofs Cond Cond2 Final.
+From EsVerif.C08 Require Import Gen Model Spec Proofs Code SrcLib Src SrcProofs SrcLibF SrcF FProofs Cond Cond2 Cond3 Final.
 Open Scope R_scope.
 
 (* The two formulas of the chord-based function are the great-circle angle of unit vectors. *)
@@ -169,6 +169,24 @@ Proof. exact branch_conditioning_thm. Qed.
 
 Theorem C08_chord_alone_ill_conditioned : forall K, 0 < K -> exists m, 0 <= m < 1 /\ K < / sqrt (1 - m²).
 Proof. exact chord_alone_ill_conditioned. Qed.
+
+(* Robustness of the chord branch against errors in the unit vectors (everything downstream exact): component
+   errors up to eta move the chord length by at most 2 sqrt(3) eta, hence the result by at most
+   20.01 * 2 sqrt(3) * eta below the source's threshold; with eta = 2^-50 (4 ulp of 1) that is within the
+   statement's 1e-11 degree. *)
+Theorem C08_chord_length_perturbed : forall eta u v u' v', 0 <= eta -> close eta u u' -> close eta v v' ->
+  Rabs (norm3 (vsub u' v') - norm3 (vsub u v)) <= 2 * sqrt 3 * eta.
+Proof. exact chord_length_perturbed. Qed.
+
+Theorem C08_chord_branch_robust : forall eta u v u' v', 0 <= eta -> close eta u u' -> close eta v v' ->
+  nsq (vsub u v) <= sphdist_thr -> nsq (vsub u' v') <= sphdist_thr ->
+  Rabs (2 * asin (/ 2 * norm3 (vsub u' v')) - 2 * asin (/ 2 * norm3 (vsub u v))) <= 2001 / 100 * (2 * sqrt 3 * eta).
+Proof. exact chord_branch_robust. Qed.
+
+Theorem C08_chord_branch_robust_4ulp : forall u v u' v', close (/ 2 ^ 50) u u' -> close (/ 2 ^ 50) v v' ->
+  nsq (vsub u v) <= sphdist_thr -> nsq (vsub u' v') <= sphdist_thr ->
+  Rabs (2 * asin (/ 2 * norm3 (vsub u' v')) - 2 * asin (/ 2 * norm3 (vsub u v))) <= tol_in Rad 1e-11.
+Proof. exact chord_branch_robust_4ulp. Qed.
 
 (* The two functions compute the same quantity (sphdist with units deg -> rad and gcirc). *)
 Theorem C08_functions_agree : forall ra1 dec1 ra2 dec2,
